@@ -35,8 +35,8 @@ ASSUMPTIONS = [
     "integral = sum over voxels of data * prod(dimensions / shape), per time step and component",
 ]
 FLOORS = {
-    "quick": {"resize_conserves": 500, "refine_coarsen_identity": 100, "coarsen_conserves": 100, "axis_reduction": 400, "extrusion": 60, "superpose": 150},
-    "thorough": {"resize_conserves": 6000, "refine_coarsen_identity": 1200, "coarsen_conserves": 1200, "axis_reduction": 5000, "extrusion": 700, "superpose": 1800},
+    "quick": {"resize_conserves": 500, "resize_object_reused": 150, "refine_coarsen_identity": 100, "coarsen_conserves": 100, "axis_reduction": 400, "extrusion": 60, "superpose": 150},
+    "thorough": {"resize_conserves": 6000, "resize_object_reused": 1500, "refine_coarsen_identity": 1200, "coarsen_conserves": 1200, "axis_reduction": 5000, "extrusion": 700, "superpose": 1800},
 }
 
 
@@ -109,7 +109,21 @@ def run_shard(spec, R):
             if use_fn:
                 ok, out = R.guarded("resize", lambda: darsia.resize(arg, shape=tshape, interpolation="inter_area"))
             else:
-                ok, out = R.guarded("resize", lambda: darsia.Resize(shape=tshape, interpolation="inter_area", **kw)(arg))
+                ok, rz = R.guarded("resize", lambda: darsia.Resize(shape=tshape, interpolation="inter_area", **kw))
+                if ok and rng.random() < 0.6:
+                    # the resize object has a history: it served an input of another shape before (pure down-sampling
+                    # from an integer multiple of the target); that earlier call is judged as well
+                    wshape = (tshape[0] * int(rng.integers(1, 4)), tshape[1] * int(rng.integers(1, 4)))
+                    warr = rng.uniform(0.1, 1.0, size=wshape)
+                    okw, wout = R.guarded("resize", lambda: rz(warr.copy()))
+                    if okw:
+                        case["earlier_call_shape"] = list(wshape)
+                        R.count("resize_object_reused")
+                        if conservative:
+                            R.check(wout.shape == tuple(tshape) and abs(float(np.sum(wout)) - float(np.sum(warr))) <= 1e-5 * float(np.sum(warr)), "resize_conserves",
+                                    lambda: {**case, "what": "earlier call", "sum_in": float(np.sum(warr)), "sum_out": float(np.sum(wout))}, group=f"warm/{conservative}")
+                if ok:
+                    ok, out = R.guarded("resize", lambda: rz(arg))
             if ok:
                 oarr = out if as_array else out.img
                 rt = 1e-5 if dtype == np.float64 else 1e-4
